@@ -40,8 +40,8 @@ PID = 'C08'
 # ---- tunables -----------------------------------------------------------
 #            cases  max_depth  processes  per-case watchdog (s)
 TIERS = {
-    'quick': dict(cases=1000, max_depth=70, procs=8, watchdog=180),
-    'thorough': dict(cases=8000, max_depth=300, procs=12, watchdog=300),
+    'quick': dict(cases=640, max_depth=70, procs=8, watchdog=180),
+    'thorough': dict(cases=6000, max_depth=300, procs=12, watchdog=300),
 }
 # relative frequency of each partitioner among the cases
 WEIGHTS = [
